@@ -306,6 +306,9 @@ func (v *fnVC) tr(e Expr, env *Env) (T, types.Type) {
 		if _, ok := ty.Underlying().(*types.Pointer); ok {
 			return app("ipay", t), ty
 		}
+		if _, ok := ty.Underlying().(*types.Interface); ok {
+			return t, ty // assertion to an interface type: the same interface value
+		}
 		return app("un"+v.boxFn(ty), app("ipay", t)), ty
 	case *TypeLit:
 		ty := v.resolveType(x.Name, env.pkg)
